@@ -125,6 +125,7 @@ pub fn gen_weak(prop: &str, seed: u64) -> RunDesc {
         m.insert("hold_at".into(), J::Int(-1));
         m.insert("weak_positions".into(), J::Arr(pos));
         m.insert("age_rounds".into(), J::Int(4 + rng.below(8) as i64));
+        m.insert("upgrade_parked".into(), J::Bool(rng.chance(0.5)));
     }
     d.family = "chain-weak".into();
     d.cfg.step_cap = 2_000_000 + 60 * n;
@@ -185,6 +186,9 @@ pub fn gen(prop: &str, seed: u64, stack: bool) -> RunDesc {
     let drop_in_tls: u64 = (stack && rng.chance(0.25)) as u64;
     // links that carry a user tag (marked nodes of a Harris list)
     let link_tag: u64 = if rng.chance(0.2) { *rng.pick(&[1u64, 3, 7]) } else { 0 };
+    // the head is revived through a Weak right after its release (and let go again), or only
+    // looked at through a WeakSnapshot: the structure is reclaimed all the same
+    let revive_head: u64 = if !stack && rng.chance(0.2) { 1 + rng.below(2) } else { 0 };
     // noise threads that only advance the clock (never flush, so they never run a cascade and
     // never hold a bag). Latency is not judged then either: with a clock driven by others the
     // 4-bit stamps of the nodes still to come age past the unambiguous window in mid-cascade and
@@ -206,6 +210,7 @@ pub fn gen(prop: &str, seed: u64, stack: bool) -> RunDesc {
         .set("payload_words", payload_words)
         .set("drop_in_tls", drop_in_tls)
         .set("link_tag", link_tag)
+        .set("revive_head", revive_head)
         .set("noise_only_advances", advancers_only)
         .set("stack_kib", stack_kib)
         .set("profile", profile)
@@ -399,6 +404,9 @@ struct Report {
 /// The last reference is dropped by another thread's thread-local destructor, which runs after
 /// that thread's participant handle is gone (set once per run; consumed by the first release).
 static DROP_IN_TLS: AtomicU64 = AtomicU64::new(0);
+/// 1: the head is revived by Weak::upgrade right after its last owner went, and released again;
+/// 2: somebody only looks at it through weak.snapshot().upgrade() (consumed by the first release)
+static REVIVE: AtomicU64 = AtomicU64::new(0);
 static HANDOFF: std::sync::Mutex<Option<Box<dyn FnOnce() + Send>>> = std::sync::Mutex::new(None);
 
 struct TlsDrop(Option<Box<dyn FnOnce() + Send>>);
@@ -430,7 +438,26 @@ fn release_and_wait<const W: usize>(head: Rc<CNode<W>>, target: u64, max_rounds:
         *HANDOFF.lock().unwrap() = Some(Box::new(move || drop(head)));
         sim().raise_signal(1);
     } else {
-        drop(head);
+        let revive = REVIVE.swap(0, Relaxed);
+        if revive != 0 && !head.is_null() {
+            let w = head.downgrade();
+            drop(head);
+            user_yield();
+            if revive == 1 {
+                if let Some(rc) = w.upgrade() {
+                    user_yield();
+                    drop(rc);
+                }
+            } else {
+                let g = circ::cs();
+                let s = w.snapshot(&g).upgrade();
+                let _ = s;
+                drop(g);
+            }
+            drop(w);
+        } else {
+            drop(head);
+        }
     }
     let mut rounds = 0;
     while DROPS.load(Relaxed) < target && rounds < max_rounds {
@@ -449,6 +476,7 @@ fn destroyer<const W: usize>(desc: &RunDesc, out: &mut Vec<(String, String)>, fa
     WEAKED.store(p.getu("weaked_nodes"), Relaxed);
     DROP_IN_TLS.store(p.getu("drop_in_tls"), Relaxed);
     LINK_TAG.store(p.getu("link_tag"), Relaxed);
+    REVIVE.store(p.getu("revive_head"), Relaxed);
     let stack_check = p.getb("stack_check");
     // With other threads around, a cascade may run on (and re-defer into the local bag of) a
     // thread that is then not scheduled for a long time; reclamation latency is then the
@@ -469,8 +497,10 @@ fn destroyer<const W: usize>(desc: &RunDesc, out: &mut Vec<(String, String)>, fa
             round();
         }
         let tls_flag = DROP_IN_TLS.swap(0, Relaxed);
+        let revive_flag = REVIVE.swap(0, Relaxed);
         let r = release_and_wait(h, 2048, 400);
         DROP_IN_TLS.store(tls_flag, Relaxed);
+        REVIVE.store(revive_flag, Relaxed);
         if DROPS.load(Relaxed) != 2048 {
             soft("nodes-not-reclaimed", format!("reference chain: only {} of 2048 nodes destructed after {} rounds", DROPS.load(Relaxed), r.rounds));
         }
@@ -519,6 +549,49 @@ fn destroyer<const W: usize>(desc: &RunDesc, out: &mut Vec<(String, String)>, fa
             soft("latency-exceeds-bound", format!("suffix of {} nodes needed {} epoch advances after its holder let go (bound {})", total - h, adv2, bound(total - h)));
         }
         fam.put("rounds", r.rounds + r2.rounds);
+    } else if !weaks.is_empty() && total > 1030 && p.getb("upgrade_parked") {
+        // chain-weak variant: once the cascade has parked the node at its depth cap (count zero,
+        // not destructed, a new attempt deferred), somebody upgrades the Weak pointers around
+        // that position and keeps what it gets: from then on those nodes and everything behind
+        // them are owned again and must survive until they are let go
+        drop(head);
+        let mut rounds = 0u64;
+        let mut kept: Vec<(u64, Rc<CNode<W>>)> = Vec::new();
+        let mut tried = false;
+        while DROPS.load(Relaxed) < total && rounds < max_rounds {
+            round();
+            rounds += 1;
+            let dr = DROPS.load(Relaxed);
+            if !tried && dr >= 1000 && dr < 1100 {
+                tried = true;
+                for (pos, w) in &weaks {
+                    if (1020..=1030).contains(pos) {
+                        user_yield();
+                        if let Some(rc) = w.upgrade() {
+                            kept.push((*pos, rc));
+                        }
+                    }
+                }
+                if let Some(first) = kept.iter().map(|k| k.0).min() {
+                    HELD_FROM.store(first, Relaxed);
+                    sim().probe("upgraded_node_parked_at_depth_cap");
+                }
+                if kept.is_empty() {
+                    continue;
+                }
+                for _ in 0..12 {
+                    round();
+                }
+                if HELD_VIOLATED.load(Relaxed) != u64::MAX {
+                    soft("held-node-destructed", format!("node {} was destructed although Weak::upgrade had returned an owner of node {} (parked at the cascade's depth cap) before", HELD_VIOLATED.load(Relaxed), kept.iter().map(|k| k.0).min().unwrap()));
+                }
+                HELD_FROM.store(u64::MAX, Relaxed);
+                for (_, rc) in kept.drain(..) {
+                    drop(rc);
+                }
+            }
+        }
+        fam.put("rounds", rounds);
     } else {
         let r = release_and_wait(head, total, max_rounds);
         let adv = r.e1 - r.e0;
